@@ -13,7 +13,7 @@ Conventions
   * session / prepared-query / node IDs are assumed to be RFC-4122 shaped (8-4-4-4-12 hex):
     the `UUIDFieldIndex` secondary indexes (`kvs.session`, `prepared-queries.session`) then
     compare exactly `lc id`.
-  * enterprise meta = default partition/namespace, peer = local ("internal").
+  * enterprise meta = default partition/namespace, peer = local (index rows carry the `peer.~:` prefix of structs.LocalPeerKeyword).
 Core-only Lean; no Mathlib.
 -/
 import CV.Proto
